@@ -136,6 +136,15 @@ PROPS = {
         rule="case i: helper i mod 9, length (i div 9) mod 66, elements from a special pool (boundaries, sNaN/qNaN payloads) or random; distinct by type+elements",
         trusted_base=COMMON_TB,
     ),
+    "C19": dict(
+        claim="theorems over the model of builder/conversions.go (integer fragment): for every destination width and signedness, set{Int,Uint}From{Int,Uint,BigInt} succeed exactly when the mathematical value fits and then store that value (iff statements: never wraps, never truncates, never rejects a fitting value). "
+              "Harness: every numeric event form (small/negative/wide/big ints, binary/decimal/big floats incl. NaN, infinities, -0, 2^53+-1, 2^63, 2^64-1) x 16 destination types through UnmarshalFromCBEDocument; the stored value is compared with the exact rational value of the source; the integer fragment is also compared with the Lean model (CONV)",
+        note="partial: float-involving conversions are decided by the exact-rational oracle only (the post-store comparisons rely on amd64's out-of-range float->int result, which is not modelled). Known finding: decimal -> big.Float rounds",
+        level="proof", n_quick=6000, n_thorough=300000, shards=16,
+        lean_modules=["CE.Props.C19", "CE.Conv.Int"],
+        rule="source event from boundary pools and random draws, against all 16 destinations in scope (float destinations only for integer sources); distinct by source text x destination",
+        trusted_base=COMMON_TB,
+    ),
 }
 
 NOT_APPLICABLE = {}
